@@ -387,6 +387,68 @@ def filtered_def(f, name, before):
     return best
 
 
+def nodata_params(prog, f):
+    """names that carry the caller's nodata value inside f: parameters reached from a public `nodata_values` parameter
+    through the module's calls (positional or keyword binding, functools.partial / delayed wrappers resolved by the
+    program model), whatever the private functions call them"""
+    m = f.module
+    cache = getattr(prog, '_nodata_params', None)
+    if cache is None:
+        cache = prog._nodata_params = {}
+    if m.name not in cache:
+        nod = {}
+        for g in m.funcs.values():
+            if 'nodata_values' in g.params + g.kwonly:
+                nod.setdefault(g.qualname, set()).add('nodata_values')
+        changed = True
+        rounds = 0
+        allf = []
+        stack = list(m.funcs.values())
+        while stack:
+            g = stack.pop()
+            allf.append(g)
+            stack.extend(g.children.values())
+        while changed and rounds < 8:
+            changed = False
+            rounds += 1
+            for g in allf:
+                mine = nod.get(g.qualname, set())
+                # closures see the names of the enclosing function
+                par = g.parent
+                while par is not None:
+                    mine = mine | nod.get(par.qualname, set())
+                    par = par.parent
+                if not mine:
+                    continue
+                for c in calls(g.node):
+                    if c not in g.own_nodes():
+                        continue
+                    try:
+                        t = prog.resolve_callable(g, m, c.func)
+                    except Exception:      # noqa
+                        continue
+                    pre = {}
+                    while t is not None and t.__class__.__name__ == 'Partial':
+                        pre.update(t.keywords)
+                        t = t.target
+                    if t is None or t.__class__.__name__ != 'Func' or t.module is not m:
+                        continue
+                    bound = dict(zip(t.params, c.args))
+                    bound.update({k.arg: k.value for k in c.keywords if k.arg})
+                    bound.update({k: v for k, v in pre.items() if isinstance(v, ast.AST)})
+                    for p_, a_ in bound.items():
+                        if isinstance(a_, ast.Name) and a_.id in mine and p_ in t.params + t.kwonly and p_ not in nod.get(t.qualname, set()):
+                            nod.setdefault(t.qualname, set()).add(p_)
+                            changed = True
+        cache[m.name] = nod
+    out = set(cache[m.name].get(f.qualname, set()))
+    par = f.parent
+    while par is not None:
+        out |= cache[m.name].get(par.qualname, set())
+        par = par.parent
+    return out or {'nodata_values'}
+
+
 def _mask_flags(f, mask, base, depth=0):
     """which validity tests a boolean mask applies to `base` (normalised text): subset of {'fin', 'ne'}"""
     out = set()
@@ -400,7 +462,8 @@ def _mask_flags(f, mask, base, depth=0):
         out.add('fin')
     if isinstance(mask, ast.Compare) and len(mask.ops) == 1 and isinstance(mask.ops[0], ast.NotEq):
         l, r = norm(mask.left), norm(mask.comparators[0])
-        if (l == base and r == 'nodata_values') or (r == base and l == 'nodata_values'):
+        nd = getattr(f, '_nodata_names', None) or {'nodata_values'}
+        if (l == base and r in nd) or (r == base and l in nd):
             out.add('ne')
     if isinstance(mask, ast.Name):
         vals = [v for v in f.local_assigns().get(mask.id, []) if isinstance(v, ast.AST)]
@@ -477,7 +540,9 @@ def check_validity(prog, rep, fs, entry_of):
     for f in fs:
         if f.is_lambda:
             continue
+        nd = nodata_params(prog, f)
         f = _view(prog, f)        # `v = _drop_invalid(v, nodata)` reads as the mask it applies
+        f._nodata_names = nd
         pm = parent_map(f.node)
         sites = []
         for c in calls(f.node):
@@ -556,72 +621,135 @@ def check_index_space(prog, rep, fs, entry_of):
                 if isinstance(t, Func) and t.name == '_strides':
                     stride_calls.append(s)
         rets = [r for r in f.own_nodes() if isinstance(r, ast.Return) and isinstance(r.value, ast.Tuple)]
-        if not stride_calls or not rets or not any(short(c) == 'argsort' for c in calls(f.node)):
+
+        def sorts(g, depth=0):
+            # the routine sorts the cells itself or in a helper of the module
+            if any(short(c) == 'argsort' for c in calls(g.node)):
+                return True
+            if depth >= 2:
+                return False
+            for c in calls(g.node):
+                try:
+                    t_ = prog.resolve_callable(g, g.module, c.func)
+                except Exception:      # noqa
+                    continue
+                if isinstance(t_, Func) and t_.module is g.module and t_ is not g and sorts(t_, depth + 1):
+                    return True
+            return False
+        if not stride_calls or not rets or not sorts(f):
             continue
-        # abstract execution of the straight-line body
-        space = {}       # name -> space id
-        version = {}
-        counter = [0]
+        # abstract execution of the straight-line body (helpers of the module are executed the same way on the spaces
+        # of their arguments: a phase split off the routine reads like the statements it replaced)
+        def run(func, space, perms, depth):
+            version = {}
 
-        def vtext(e):
-            def rn(x):
-                return '%s#%d' % (x.id, version.get(x.id, 0))
-            t = norm(e)
-            for x in sorted({y.id for y in ast.walk(e) if isinstance(y, ast.Name)}, key=len, reverse=True):
-                t = t.replace(x, '%s#%d' % (x, version.get(x, 0)))
-            return t
+            def vtext(e):
+                t = norm(e)
+                for x in sorted({y.id for y in ast.walk(e) if isinstance(y, ast.Name)}, key=len, reverse=True):
+                    t = t.replace(x, '%s#%d' % (x, version.get(x, 0)))
+                return t
 
-        def sp(e):
-            if isinstance(e, ast.Name):
-                return space.get(e.id)
-            if isinstance(e, ast.Call):
-                nm = short(e)
-                if nm in ('ravel', 'flatten', 'reshape', 'deepcopy', 'copy', 'astype'):
-                    base = e.func.value if isinstance(e.func, ast.Attribute) and nm != 'deepcopy' else (e.args[0] if e.args else None)
-                    r = sp(base) if base is not None else None
-                    return r or 'CELLS'
-                if nm == 'argsort':
-                    return sp(e.args[0]) if e.args else None
-                return None
-            if isinstance(e, ast.Subscript):
-                idx = e.slice
-                last = idx.elts[-1] if isinstance(idx, ast.Tuple) else idx
-                if isinstance(last, ast.Name) and last.id in space and last.id in perms:
-                    return space[last.id]          # gathered by a permutation: lives in the permutation's space
-                if isinstance(last, ast.Call) and short(last) in ('isfinite', 'isnan', 'logical_and') or \
-                        isinstance(last, (ast.Compare, ast.BinOp, ast.UnaryOp)):
-                    return 'F(%s|%s)' % (sp(e.value), vtext(last))
-                if isinstance(last, ast.Name):
+            def sp(e):
+                if isinstance(e, ast.Name):
+                    return space.get(e.id)
+                if isinstance(e, ast.Call):
+                    nm = short(e)
+                    if nm in ('ravel', 'flatten', 'reshape', 'deepcopy', 'copy', 'astype'):
+                        base = e.func.value if isinstance(e.func, ast.Attribute) and nm != 'deepcopy' else (e.args[0] if e.args else None)
+                        r = sp(base) if base is not None else None
+                        return r or 'CELLS'
+                    if nm == 'argsort':
+                        return sp(e.args[0]) if e.args else None
+                    t_ = None
+                    try:
+                        t_ = prog.resolve_callable(func, func.module, e.func)
+                    except Exception:      # noqa
+                        t_ = None
+                    if isinstance(t_, Func) and t_.module is func.module and t_.jit is None and depth < 2 and not e.keywords and \
+                            len(e.args) == len(t_.params):
+                        sub_space = {p_: sp(a_) for p_, a_ in zip(t_.params, e.args)}
+                        sub_perms = {p_ for p_, a_ in zip(t_.params, e.args) if isinstance(a_, ast.Name) and a_.id in perms}
+                        sspace, sperms, srets = run(t_, sub_space, sub_perms, depth + 1)
+                        vals = {repr(v_) for v_ in srets}
+                        if len(vals) == 1 and srets and not isinstance(srets[0], list):
+                            return srets[0]
+                    return None
+                if isinstance(e, ast.Subscript):
+                    idx = e.slice
+                    last = idx.elts[-1] if isinstance(idx, ast.Tuple) else idx
+                    if isinstance(last, ast.Name) and last.id in space and last.id in perms:
+                        return space[last.id]          # gathered by a permutation: lives in the permutation's space
+                    if isinstance(last, ast.Call) and short(last) in ('isfinite', 'isnan', 'logical_and') or \
+                            isinstance(last, (ast.Compare, ast.BinOp, ast.UnaryOp)):
+                        return 'F(%s|%s)' % (sp(e.value), vtext(last))
+                    if isinstance(last, ast.Name):
+                        mv = [v_ for v_ in func.local_assigns().get(last.id, []) if isinstance(v_, ast.AST)]
+                        if len(mv) == 1 and (isinstance(mv[0], ast.Call) and short(mv[0]) in ('isfinite', 'isnan', 'logical_and') or
+                                             isinstance(mv[0], (ast.Compare, ast.BinOp, ast.UnaryOp))):
+                            return 'F(%s|%s)' % (sp(e.value), vtext(mv[0]))      # a mask held in a local
+                        return sp(e.value)
                     return sp(e.value)
-                return sp(e.value)
-            if isinstance(e, ast.Attribute):
-                return sp(e.value) or 'CELLS'
-            return None
+                if isinstance(e, ast.Attribute):
+                    return sp(e.value) or 'CELLS'
+                return None
 
-        perms = set()
-        for p in f.params:
-            space[p] = 'CELLS'
-        body = sorted([s for s in f.own_nodes() if isinstance(s, (ast.Assign,))], key=lambda s: s.lineno)
-        stride_space = None
-        for s in body:
-            t = s.targets[0]
-            if isinstance(t, ast.Name):
-                if isinstance(s.value, ast.Call) and short(s.value) == 'argsort':
-                    perms.add(t.id)
-                if isinstance(s.value, ast.Subscript) and isinstance(s.value.value, ast.Name) and s.value.value.id in perms:
-                    perms.add(t.id)    # a filtered permutation is still a permutation (of the kept cells)
-                if s in stride_calls:
-                    stride_space = sp(s.value.args[0])
-                    space[t.id] = ('OFFSETS', stride_space)
-                else:
-                    v = sp(s.value)
-                    space[t.id] = v
-                version[t.id] = version.get(t.id, 0) + 1
-            elif isinstance(t, ast.Subscript) and isinstance(t.value, ast.Name):
-                # values_by_zones[i] = values_by_zones[i][perm]  -> last axis gathered
-                v = sp(s.value)
-                if v is not None:
-                    space[t.value.id] = v
+            def is_perm(v_):
+                return (isinstance(v_, ast.Call) and short(v_) == 'argsort') or \
+                    (isinstance(v_, ast.Subscript) and isinstance(v_.value, ast.Name) and v_.value.id in perms)
+            body = sorted([s_ for s_ in func.own_nodes() if isinstance(s_, (ast.Assign, ast.Return))], key=lambda s_: (s_.lineno, s_.col_offset))
+            rets_ = []
+            for s_ in body:
+                if isinstance(s_, ast.Return):
+                    if s_.value is not None and not isinstance(s_.value, ast.Tuple):
+                        rets_.append(sp(s_.value))
+                    elif s_.value is not None:
+                        rets_.append([sp(x) for x in s_.value.elts])
+                    continue
+                t = s_.targets[0]
+                pairs = []
+                if isinstance(t, ast.Name):
+                    pairs = [(t, s_.value)]
+                elif isinstance(t, ast.Tuple) and isinstance(s_.value, ast.Tuple) and len(t.elts) == len(s_.value.elts) and \
+                        all(isinstance(x, ast.Name) for x in t.elts):
+                    pairs = list(zip(t.elts, s_.value.elts))
+                elif isinstance(t, ast.Tuple) and all(isinstance(x, ast.Name) for x in t.elts) and isinstance(s_.value, ast.Call):
+                    # a, b = helper(..): the helper's returned pair
+                    try:
+                        t_ = prog.resolve_callable(func, func.module, s_.value.func)
+                    except Exception:      # noqa
+                        t_ = None
+                    if isinstance(t_, Func) and t_.module is func.module and t_.jit is None and depth < 2 and not s_.value.keywords and \
+                            len(s_.value.args) == len(t_.params):
+                        sub_space = {p_: sp(a_) for p_, a_ in zip(t_.params, s_.value.args)}
+                        sub_perms = {p_ for p_, a_ in zip(t_.params, s_.value.args) if isinstance(a_, ast.Name) and a_.id in perms}
+                        sspace, sperms, srets = run(t_, sub_space, sub_perms, depth + 1)
+                        if len(srets) == 1 and isinstance(srets[0], list) and len(srets[0]) == len(t.elts):
+                            for x, v_ in zip(t.elts, srets[0]):
+                                space[x.id] = v_
+                                version[x.id] = version.get(x.id, 0) + 1
+                            # which components are permutations: by the helper's own statements
+                            rv_ = [r_ for r_ in t_.own_nodes() if isinstance(r_, ast.Return)][0].value
+                            for x, rexp in zip(t.elts, rv_.elts):
+                                if (isinstance(rexp, ast.Name) and rexp.id in sperms) or \
+                                        (isinstance(rexp, ast.Subscript) and isinstance(rexp.value, ast.Name) and rexp.value.id in sperms):
+                                    perms.add(x.id)
+                    continue
+                for t1, v1 in pairs:
+                    if is_perm(v1):
+                        perms.add(t1.id)
+                    if s_ in stride_calls and len(pairs) == 1:
+                        ss = sp(v1.args[0])
+                        space[t1.id] = ('OFFSETS', ss)
+                    else:
+                        space[t1.id] = sp(v1)
+                    version[t1.id] = version.get(t1.id, 0) + 1
+                if not pairs and isinstance(t, ast.Subscript) and isinstance(t.value, ast.Name):
+                    # values_by_zones[i] = values_by_zones[i][perm]  -> last axis gathered
+                    v = sp(s_.value)
+                    if v is not None:
+                        space[t.value.id] = v
+            return space, perms, rets_
+        space, perms, _r = run(f, {p: 'CELLS' for p in f.params}, set(), 0)
         ret = rets[-1].value.elts
         got = [space.get(e.id) if isinstance(e, ast.Name) else None for e in ret]
         offs = [g for g in got if isinstance(g, tuple)]
@@ -696,7 +824,7 @@ def check_strides(prog, rep, m, entry):
     ok = None
     why = 'shape not recognised'
     try:
-        k = interpret(prog, f, strict=False)
+        k = interpret(prog, f, strict=False, index_arrays=True)
         outs = [v for v, g in k.returns]
         fors = [L for L in k.loops if L.kind == 'range']
         whiles = [L for L in k.loops if L.kind == 'while']
@@ -1032,6 +1160,36 @@ def delayed_tasks(m):
     return [f for f in m.funcs.values() if f.jit is not None and f.jit.kind == 'delayed']
 
 
+def ids_param(prog, g, depth=0):
+    """the parameter of the stride routine (or of a routine that hands it on to the stride routine) that receives the id
+    vector: in `_strides` the one whose length bounds the loop over the ids; None for other functions"""
+    if g.name == '_strides':
+        for n_ in g.own_nodes():
+            if isinstance(n_, ast.For) and isinstance(n_.iter, ast.Call) and short(n_.iter) in ('range', 'prange') and n_.iter.args:
+                for x in ast.walk(n_.iter.args[-1]):
+                    if isinstance(x, ast.Name) and x.id in g.params:
+                        return x.id
+        return g.params[1] if len(g.params) > 1 else None
+    if depth >= 2 or g.is_lambda:
+        return None
+    for c in calls(g.node):
+        if c not in g.own_nodes():
+            continue
+        try:
+            t_ = prog.resolve_callable(g, g.module, c.func)
+        except Exception:      # noqa
+            continue
+        if isinstance(t_, Func) and t_ is not g and t_.module is g.module:
+            r = ids_param(prog, t_, depth + 1)
+            if r is not None:
+                b_ = dict(zip(t_.params, c.args))
+                b_.update({k.arg: k.value for k in c.keywords if k.arg})
+                a_ = b_.get(r)
+                if isinstance(a_, ast.Name) and a_.id in g.params:
+                    return a_.id
+    return None
+
+
 def check_global_ids(prog, rep, m, entry):
     n = 0
     for f in delayed_tasks(m):
@@ -1042,10 +1200,26 @@ def check_global_ids(prog, rep, m, entry):
         rep.add('Z7', f, entry, '%s: np.unique calls %s' % (f.qualname, [norm(b)[:50] for b in bad]), f.node.lineno, not bad,
                 'per-block tasks must use the zone / category ids computed on the WHOLE arrays (passed in as '
                 'arguments); ids discovered per block would give rows that do not line up across blocks')
-        for p in ('unique_zones',):
-            n += 1
-            rep.add('Z7', f, entry, '%s takes %s as a parameter' % (f.qualname, p), f.node.lineno, p in f.params,
-                    'the global id vector must be an argument of the per-block task')
+        # the ids the block is sorted / strided against come from outside: every argument of the stride routine's call is
+        # a parameter of the task (its own two blocks and the global id vector), nothing is computed from the block
+        sc = []
+        okp = True
+        for c in calls(f.node):
+            if c not in f.own_nodes():
+                continue
+            t_ = prog.resolve_callable(f, m, c.func)
+            role = ids_param(prog, t_) if isinstance(t_, Func) else None
+            if role is None:
+                continue
+            b_ = dict(zip(t_.params, c.args))
+            b_.update({k.arg: k.value for k in c.keywords if k.arg})
+            sc.append(c)
+            a_ = b_.get(role)
+            if not (isinstance(a_, ast.Name) and a_.id in f.params):
+                okp = False
+        n += 1
+        rep.add('Z7', f, entry, '%s: the id vector of %s is a parameter of the task' % (f.qualname, norm(sc[0])[:80] if sc else 'the stride call'),
+                f.node.lineno, okp if sc else None, 'the global id vector must be an argument of the per-block task')
     return n
 
 
